@@ -93,6 +93,29 @@ func (x *Enc) havocAll(h Heap, reach Term) Heap {
 			}
 		}
 	}
+	// ... nor the scalar arrays embedded in them (e.g. SSVMessage.MsgID [56]byte): their elements live in the
+	// shared element heap, at the addresses the embedding function gives
+	if x.con != nil {
+		for _, n := range sortedKeys(x.embArrs) {
+			ea := x.embArrs[n]
+			if ea.key == "" || x.noPreserve[ea.key] {
+				continue
+			}
+			if _, reg := x.keys[ea.key]; !reg {
+				continue
+			}
+			if _, whole := nh.m[ea.key]; whole {
+				continue
+			}
+			for _, tn := range x.con.HavocPreserves {
+				if !strings.HasPrefix(tn, "key:") && strings.HasSuffix(typeKey(ea.structT), tn) {
+					x.embAddr(ea.structT, ea.field, "0") // declares the embedding function
+					x.sc.assert(fmt.Sprintf("(forall ((p Int)) (! (= (select %s (%s p)) (select %s (%s p))) :pattern ((%s p))))", x.hget(nh, ea.key), n, x.hget(h, ea.key), n, n))
+					break
+				}
+			}
+		}
+	}
 	// variables captured by the closure under contract live in cells only the enclosing function and its
 	// closures can name: callees cannot write them
 	for _, n := range sortedKeys(x.topDerefs) {
@@ -195,8 +218,31 @@ func embName(structT types.Type, field string) string {
 	return sym("emb!" + cleanKey(typeKey(structT)) + "." + field)
 }
 
+// embArr: an array-typed field embedded in a struct; its elements live in the element heap `key` at the address
+// the embedding function gives (havoc_preserves of the struct type covers them, see havocAll).
+type embArr struct {
+	structT types.Type
+	field   string
+	key     string
+}
+
 func (x *Enc) embAddr(structT types.Type, field string, base Term) Term {
 	n := embName(structT, field)
+	if _, seen := x.embArrs[n]; !seen {
+		if x.embArrs == nil {
+			x.embArrs = map[string]embArr{}
+		}
+		ea := embArr{structT: structT, field: field}
+		if st, ok := structT.Underlying().(*types.Struct); ok && !strings.Contains(field, ".") {
+			for i := 0; i < st.NumFields(); i++ {
+				if at, isArr := st.Field(i).Type().Underlying().(*types.Array); isArr && st.Field(i).Name() == field && isScalarElem(at.Elem()) {
+					ea.key = elemKeyOf(at.Elem(), "")
+				}
+			}
+		}
+		x.embArrs[n] = ea
+		x.changed = true
+	}
 	if _, ok := x.sc.decls[n]; !ok {
 		x.sc.declFun(n, []string{"Int"}, "Int")
 		inv := sym("embinv!" + cleanKey(typeKey(structT)) + "." + field)
